@@ -102,6 +102,7 @@ func (ev *Eval) eval(e *Expr) *Value {
 		return &Value{T: types.Typ[types.UntypedNil], L: []*Term{Int(0)}}
 	case "id":
 		return ev.ident(e.Name)
+	case "call_locked":
 	case "old":
 		save := ev.inOld
 		ev.inOld = true
@@ -622,7 +623,25 @@ func (ev *Eval) index(e *Expr) *Value {
 }
 
 func (ev *Eval) call(e *Expr) *Value {
+	if k := strings.Index(e.Name, "."); k > 0 {
+		// x.Method(args) where x is a value (not a package): rewrite to Method(x, args)
+		if _, ok := ev.tryIdent(e.Name[:k]); ok {
+			ne := &Expr{Op: "call", Name: e.Name[k+1:], Text: e.Text}
+			ne.Args = append([]*Expr{{Op: "id", Name: e.Name[:k], Text: e.Name[:k]}}, e.Args...)
+			return ev.call(ne)
+		}
+	}
 	switch e.Name {
+	case "locked":
+		// value of e right after the function under verification first acquired a monitor lock
+		if ev.v.firstLockSnap == nil {
+			ev.fail("locked(...) used but no monitor lock was acquired on this path")
+		}
+		saveOld, saveIn := ev.old, ev.inOld
+		ev.old, ev.inOld = ev.v.firstLockSnap, true
+		r := ev.eval(e.Args[0])
+		ev.old, ev.inOld = saveOld, saveIn
+		return r
 	case "len":
 		x := ev.eval(e.Args[0])
 		return scalar(specInt, ev.v.lenOf(ev.state(), x))
@@ -697,8 +716,44 @@ func (ev *Eval) call(e *Expr) *Value {
 		}
 		return sub.eval(pf.Body)
 	}
+	// a real (pure, small) method of the first argument's type: executed on a scratch copy of the state
+	if len(e.Args) >= 1 {
+		recv := ev.eval(e.Args[0])
+		if m := ev.lookupMethod(recv.T, e.Name); m != nil && m.Blocks != nil {
+			var args []*Value
+			args = append(args, recv)
+			for _, a := range e.Args[1:] {
+				args = append(args, ev.eval(a))
+			}
+			st := ev.state().clone()
+			if st.frame == nil {
+				st.frame = &Frame{fn: m, regs: map[ssa.Value]*Value{}}
+			}
+			ev.v.suppressObs++
+			res := ev.v.inline(st, m, args, nil, m.Pos())
+			ev.v.suppressObs--
+			if res != nil && !st.dead {
+				return res
+			}
+		}
+	}
 	ev.fail("unknown spec function %q", e.Name)
 	return nil
+}
+
+func (ev *Eval) lookupMethod(t types.Type, name string) *ssa.Function {
+	var pkg *types.Package
+	if n, ok := types.Unalias(t).(*types.Named); ok {
+		pkg = n.Obj().Pkg()
+	} else if p, ok := types.Unalias(t).(*types.Pointer); ok {
+		if n, ok := types.Unalias(p.Elem()).(*types.Named); ok {
+			pkg = n.Obj().Pkg()
+		}
+	}
+	if pkg == nil {
+		return nil
+	}
+	return ev.v.prog.LookupMethod(t, pkg, name)
 }
 
 // havocTarget implements `modifies` targets at call sites.
